@@ -38,6 +38,9 @@ class Enum:
         self.payloads = payloads
 
 
+VARIANT_DISCR = {"None": 0, "Some": 1, "Ok": 0, "Err": 1, "Continue": 0, "Break": 1}
+
+
 def some(v):
     return Enum(1, {"Some": Struct({0: v})})
 
@@ -133,8 +136,13 @@ def split_top(s, sep=","):
     return out
 
 
-def find_function(mir_text, name_re):
-    m = re.search(r"^fn [^\n]*%s\((.*?)\) -> [^\n]* \{$" % name_re, mir_text, re.M)
+def find_function(mir_text, name_re, params_re=None):
+    m = None
+    for m in re.finditer(r"^fn [^\n]*%s\((.*?)\) -> [^\n]* \{$" % name_re, mir_text, re.M):
+        if params_re is None or re.search(params_re, m.group(1)):
+            break
+    else:
+        m = None
     if not m:
         raise Unsupported("function %s not found in the MIR dump" % name_re)
     start = m.start()
@@ -148,6 +156,16 @@ def find_function(mir_text, name_re):
     if "bb0" not in blocks:
         raise Unsupported("no basic blocks")
     return params, blocks
+
+
+def find_promoted(mir_text, fn_tail_re):
+    """string constants behind `const <..>::f::promoted[k]` (type &&str / &str)"""
+    out = {}
+    for m in re.finditer(r"^const [^\n]*%s::promoted\[(\d+)\]: [^\n]* = \{\n(.*?)^\}" % fn_tail_re, mir_text, re.M | re.S):
+        c = re.search(r'const "((?:[^"\\]|\\.)*)"', m.group(2))
+        if c:
+            out[int(m.group(1))] = c.group(1)
+    return out
 
 
 PLACE_LOCAL = re.compile(r"_\d+$")
@@ -217,6 +235,7 @@ class Exec:
         self.finished = []
         self.queries = 0
         self.models_used = set()
+        self.promoted = None
 
     def feasible(self, pc, cond):
         if cond is True:
@@ -241,9 +260,11 @@ class Exec:
         cur = path.locals[local]
         for k, p in enumerate(proj):
             if p == "deref":
-                if not isinstance(cur, Ref):
-                    raise Unsupported("deref of %r" % (cur,))
-                cur = self._get(path, cur.local, cur.proj)
+                if isinstance(cur, Ref):
+                    cur = self._get(path, cur.local, cur.proj)
+                elif cur is None:
+                    raise Unsupported("deref of an unset place")
+                # anything else is a constant / by-value stand-in for the referent
             elif isinstance(p, tuple):
                 if not isinstance(cur, Enum) or p[1] not in cur.payloads:
                     raise Unsupported("downcast to %s of %r" % (p[1], cur))
@@ -276,7 +297,7 @@ class Exec:
 
     def load(self, path, ref):
         if not isinstance(ref, Ref):
-            raise Unsupported("expected a reference, got %r" % (ref,))
+            return ref      # a constant behind a promoted reference, or a model's by-value stand-in
         return self._get(path, ref.local, ref.proj)
 
     def make_ref(self, path, local, proj):
@@ -301,6 +322,14 @@ class Exec:
             m = re.match(r"(-?\d+)_\w+$", c)
             if m:
                 return int(m.group(1))
+            if c.startswith('"') and c.endswith('"'):
+                return c[1:-1]
+            m = re.search(r"::promoted\[(\d+)\]$", c)
+            if m and self.promoted is not None:
+                k = int(m.group(1))
+                if k not in self.promoted:
+                    raise Unsupported("promoted[%d]" % k)
+                return self.promoted[k]
             return Opaque(c)
         raise Unsupported("operand %r" % s)
 
@@ -323,6 +352,28 @@ class Exec:
             return Struct({i: self.operand(path, x) for i, x in enumerate(split_top(s[1:-1]))}, "tuple")
         if s.startswith("[") and s.endswith("]"):
             return VecV([self.operand(path, x) for x in split_top(s[1:-1])])
+        m = re.match(r"(Add|Sub|Eq|Ne|Lt|Le|Gt|Ge|AddWithOverflow|SubWithOverflow)\((.*)\)$", s)
+        if m:
+            a, b = [self.operand(path, x) for x in split_top(m.group(2))]
+            op = m.group(1)
+            if isinstance(a, bool) or isinstance(b, bool) or not all(isinstance(x, int) or z3.is_int(x) for x in (a, b)):
+                raise Unsupported("binary op on %r, %r" % (a, b))
+            if op in ("Add", "AddWithOverflow", "Sub", "SubWithOverflow"):
+                v = a + b if op.startswith("Add") else a - b
+                return Struct({0: v, 1: False}, "tuple") if op.endswith("Overflow") else v
+            return {"Eq": a == b, "Ne": a != b, "Lt": a < b, "Le": a <= b, "Gt": a > b, "Ge": a >= b}[op]
+        m = re.match(r"Not\((.*)\)$", s)
+        if m:
+            a = self.operand(path, m.group(1))
+            return (not a) if isinstance(a, bool) else z3.Not(a)
+        m = re.match(r"(move|copy) (.+?) as .+ \(.+\)$", s)
+        if m:
+            return self.operand(path, m.group(1) + " " + m.group(2))
+        m = re.match(r"[\w:<>'&, \[\]\(\)]*?::(None|Some|Ok|Err|Continue|Break)(?:\((.*)\))?$", s)
+        if m and not s.startswith(("move ", "copy ")):
+            var = m.group(1)
+            args = split_top(m.group(2)) if m.group(2) else []
+            return Enum(VARIANT_DISCR[var], {var: Struct({i: self.operand(path, a) for i, a in enumerate(args)})})
         m = re.match(r"([\w:<>' ,]+?)\s*\{(.*)\}$", s)
         if m:
             fields, names = {}, []
@@ -389,6 +440,9 @@ class Exec:
         m = re.match(r"drop\((.*?)\) -> \[return: (bb\d+)", t)
         if m:
             return [(m.group(2), True, None)]
+        m = re.match(r"assert\(.*\) -> \[success: (bb\d+)", t)
+        if m:
+            return [(m.group(1), True, None)]   # overflow / bounds assertions: not the subject
         m = re.match(r"switchInt\((.*?)\) -> \[(.*)\];$", t)
         if m:
             v = self.operand(path, m.group(1))
